@@ -101,6 +101,7 @@ def menu():
                      'inf,inf,0', '13,0.005', '1e300,1e300,0', '13,-0.005,0', 'a,b,c', '13,0.005,0,1,2'])
     add('--boundary', ['circular', 'linear', 'square'])
     add('--radial-count', ['-1', '0', '8', '100000', 'x'])
+    M.append(('--medium', '13,0.005,0'))        # real ground: makes --radial-count without radius reachable as a pair
     add('--radial-radius', ['0', '-1', 'nan', 'inf', '1e-300'])
     for o in ('--theta', '--phi'):
         add(o, ['0,10,0', '0,10,-1', '0,0,3', 'nan,10,3', '0,nan,3', '0,inf,3', '0,10', '0,10,3,4', '0,10,2.5', '1e300,1e300,3', '-400,777,3', '0,1,400'])
@@ -223,8 +224,11 @@ def cases(tier, seed):
         for i in range(len(MENU)):
             yield dict(base=b, devs=[i])
     if tier == 'thorough':
+        # pairs over the menu without the extreme-magnitude entries (1e300 / 1e-300): those are covered as single
+        # deviations (most are listed findings) and would only multiply the same overflow under other names
+        calm = [i for i in range(len(MENU)) if not any(x in vclass(MENU[i][1]) for x in ('huge', 'tiny'))]
         for b in BASES:
-            for i, j in itertools.combinations(range(len(MENU)), 2):
+            for i, j in itertools.combinations(calm, 2):
                 if MENU[i][0] == MENU[j][0] and MENU[i][1] is not None:
                     continue     # both would replace the same option: equals a single deviation
                 yield dict(base=b, devs=[i, j])
